@@ -22,10 +22,15 @@ EXTENDS JsonValue
 (* the per-property decoder reads a deepObject field (o[a]=4) -- it does so when the same schema sits below a typed allOf.           *)
 (* Repaired in round 6: F-C06-2 (750547f), F-C06-4 (403f95a), F-C06-7 (bbdbedc), F-C06-8 (fe6a30a).  Their class predicates stay: a fixed     *)
 (* entry of known_findings.json suppresses nothing, so a recurrence is printed as a VIOLATION that carries the class name.                *)
+(* F-C06-10: an Encoding Object that gives style spaceDelimited / pipeDelimited and no explode is read as exploded (the library      *)
+(* defaults explode to true for every style; OpenAPI 3.0.3 says false for every style but form): ls=a|b decodes to ["a|b"].         *)
 HasKeyK(v, k) == \E i \in DOMAIN v.k : v.k[i] = k
 Class(line, bad) ==
    LET c == line.c IN
-   IF c.part = "decode" /\ c.family = "zip" /\ "decoded_value" \in bad /\ "dec" \in DOMAIN line /\ line.dec.err = "ok" /\ "val" \in DOMAIN line.dec
+   IF c.part = "decode" /\ "encStyle" \in DOMAIN c /\ c.encStyle \in {"spaceDelimited", "pipeDelimited"} /\ c.encExplode = "none"
+      /\ "decoded_value" \in bad /\ "dec" \in DOMAIN line /\ line.dec.err = "ok"
+   THEN "encoding_style_alone_read_exploded"
+   ELSE IF c.part = "decode" /\ c.family = "zip" /\ "decoded_value" \in bad /\ "dec" \in DOMAIN line /\ line.dec.err = "ok" /\ "val" \in DOMAIN line.dec
       /\ line.dec.val.t = "str" /\ Len(line.dec.val.cs) = 256 /\ SubSeq(line.dec.val.cs, 1, Len(c.v.cs)) = c.v.cs
    THEN "zip_member_padded_to_read_buffer"
    ELSE IF c.part = "decode" /\ c.family = "form" /\ c.schema = "S8" /\ "wrap" \in DOMAIN c /\ c.wrap = "plain" /\ HasKeyK(c.v, "o")
@@ -50,7 +55,7 @@ Class(line, bad) ==
    ELSE IF c.family = "form" /\ bad = {"violating_body_rejected"} /\ line.verdict = "ok"
            /\ \E i \in DOMAIN c.v.k : (c.v.k[i] \in {"n", "u1", "b", "f"} /\ c.v.v[i].t = "str")
                                       \/ (c.v.k[i] = "n" /\ c.v.v[i].t = "num" /\ c.v.v[i].q % 4 # 0)          \* 4.5 for the integer
-                                      \/ (c.v.k[i] = "l" /\ \E j \in DOMAIN c.v.v[i].a : c.v.v[i].a[j].t = "str")
+                                      \/ (c.v.k[i] \in {"l", "lb", "lf"} /\ \E j \in DOMAIN c.v.v[i].a : c.v.v[i].a[j].t = "str")
                                       \/ (c.v.k[i] = "o" /\ HasKeyK(c.v.v[i], "a") /\ Get(c.v.v[i], "a").t = "str")
    THEN "form_unparsable_field_dropped"
    ELSE IF c.family = "multipart" /\ ~("partCT" \in DOMAIN c /\ c.partCT = "json") /\ HasNum(c.v) /\ bad \subseteq {"conforming_body_accepted", "decoded_value"}
